@@ -124,7 +124,12 @@ class PoolWorld:
         sn.uses_meta = True
         parents = [sn]
         if self.late:
-            parents.append(elfi.Prior(LateDist, model=m, name=self.late))
+            # a second, independent simulator (stochastic, observed) feeding the distance next to the summary
+            def late_sim(batch_size=1, random_state=None):
+                b, v = random_state.take(batch_size)
+                w.calls[(w.late, b)] += 1
+                return w._arr(v)
+            parents.append(elfi.Simulator(late_sim, observed=np.zeros((1,)), model=m, name=self.late))
         dn = elfi.Discrepancy(mk_disc(0), *parents, model=m, name='d')
         dn.uses_meta = True
         return m
@@ -224,7 +229,7 @@ def h_context_refusal(ctx, bs):
         pool = elfi.OutputPool(['sim'])
         run(w, 1, 1, pool)
         other_bs = bs + 1 + ctx.choice('bs_delta', 2)
-        other_seed = w.seed + 1 + ctx.choice('seed_delta', 2)
+        other_seed = (0, w.seed + 1)[ctx.choice('seed_sel', 2)]
         res = {}
         for tag, kw in (('batch_size', dict(batch_size=other_bs, seed=w.seed)), ('seed', dict(batch_size=bs, seed=other_seed)),
                         ('same', dict(batch_size=bs, seed=w.seed)), ('defaults', dict())):
@@ -278,18 +283,18 @@ HARNESSES += [
     H('pool_sim+s+d_replace_readd_s', h_pool_history, dict(bs=2, n=2, stored_idx=4, script=SCRIPTS['fill_more_replace_readd_s']),
       bounds='batch_size=2 n=2 stored=[sim,s,d] script=fill,more,replace s and re-add empty stores for s and d,rerun',
       tiers=('thorough',)),
-    H('context_refusal', h_context_refusal, dict(bs=2), bounds='batch_size 2 vs 3..4, seed vs seed+1..2'),
+    H('context_refusal', h_context_refusal, dict(bs=2), bounds='batch_size 2 vs 3..4, seed 11 vs {0, 12}'),
     # stochastic node `late` (a second prior feeding the distance) that is stored together with the simulator: fine
     H('late_stored_zz', h_pool_history, dict(bs=2, n=2, stored_idx=0, script=SCRIPTS['fill_rerun_more'], late='zz', late_stored=True),
-      bounds='extra stochastic parent of d named zz (executes after sim), stored together with sim'),
+      bounds='second simulator feeding d, named zz (executes after sim), stored together with sim'),
     H('late_unstored_executes_before_sim', h_pool_history,
       dict(bs=2, n=2, stored_idx=0, script=SCRIPTS['fill_rerun_more'], late='a', late_stored=False),
-      bounds='extra stochastic parent of d named a: executes BEFORE t and sim; not stored'),
+      bounds='second simulator feeding d, named a: executes BEFORE t and sim; not stored'),
     # known finding: unstored stochastic node executing after the stored simulator
     H('late_unstored_executes_after_sim', h_pool_history,
       dict(bs=2, n=2, stored_idx=0, script=SCRIPTS['fill_rerun'], late='zz', late_stored=False),
-      finding='C05/stochastic-after-loaded-stochastic',
-      bounds='extra stochastic parent of d named zz: executes AFTER sim; sim stored, zz not'),
+      finding='C05/stochastic-after-loaded-stochastic', finding_claims=('_same_t', '_same_s', '_same_d', '_same_threshold'),
+      bounds='second simulator feeding d, named zz: executes AFTER sim; sim stored, zz not'),
 ]
 
 MANIFEST = {
